@@ -219,8 +219,12 @@ def run(ctx):
         projects.append(("generated-name-inner", "pragma circom 2.1.0;\ntemplate Two() {\n    signal input a;\n    signal input b;\n    signal output p;\n    p <== a * b;\n}\n"
                          "template T(n) {\n    signal input x;\n    signal output y;\n    signal output z;\n    if (n > 0) {\n        var Two_14_255 = 7;\n"
                          "        y <== Two()(a <== x, b <== x);\n        z <== x * Two_14_255;\n    }\n}\n", 0))
+        # a template whose name is the prefix of the generated loop counters (review 'latest3' f3: between add4a3b and f5059a1 its anonymous
+        # component was named `anon_var@..` and skipped by the passes that skip those counters — the note about `in * 3` was lost)
+        projects.append(("generated-name-template", "pragma circom 2.1.0;\ntemplate anon_var() { signal input a; signal output b; b <== a; }\n"
+                         "template T() {\n    signal input in;\n    signal output out;\n    out <== anon_var()(in * 3);\n}\n", 0))
         # the same programs with the variable spelled differently (same length): the findings must be the same
-        controls = {"generated-name": ("Sq_12_173", "Sx_12_173"), "generated-name-inner": ("Two_14_255", "Twx_14_255")}
+        controls = {"generated-name": ("Sq_12_173", "Sx_12_173"), "generated-name-inner": ("Two_14_255", "Twx_14_255"), "generated-name-template": ("anon_var", "anon_war")}
         for kind, text, nshadow in list(projects):
             if kind in controls:
                 projects.append((kind + "-control", text.replace(*controls[kind]), nshadow))
